@@ -131,6 +131,9 @@ func runC16(r *Run, p *Prog) {
 		if locks == nil {
 			locks = lockSet{}
 		}
+		if strings.HasPrefix(a.What, "synchronised access") {
+			continue // sync / sync/atomic types synchronise internally
+		}
 		if strings.Contains(a.What, "escapes") {
 			locks = lockSet{} // the value is used where the lock state is not known
 		}
